@@ -271,4 +271,10 @@ def crashDiskAt (nd : Node) : List Op → Nat → Disk
 def specSM (G : List Entry) (la : Option LogId) : SM :=
   applyEntriesT {} (G.filter (fun e => upto (oidx la) e.id.index))
 
+/-- `RocksStore::open` on its own: `recover_metadata` only — the applied position and membership are
+read back, `replay_log` is NOT run, the state stays empty. It is the first half of
+`open_with_shared_state` (`reopen`); nothing but `open_with_shared_state` (and tests) calls it. -/
+def openOnly (d : Disk) : Node :=
+  { mem := { lastApplied := d.lastApplied, membership := d.membership.getD {}, state := {} }, disk := d }
+
 end Varpulis.RaftStore
